@@ -7,19 +7,19 @@ props = [json.loads(l) for l in open(os.path.join(HERE, 'properties.jsonl'))]
 CLAIMED = {
     'C01': dict(design='§6 C01', technique='Lean 4 proof (invariant over all reachable queue states, any PAlg) + trace validation of PcfgQueue',
                 text='Theorems over the Lean model of find_children/_are_you_my_child/_find_prob/PcfgQueue.next for every well-formed grid, every heap tie-breaking and every prefix; decision fragments regenerated from the source on each run; every pop of the real queue validated against the model.',
-                note='binary64: PAlg laws proved for the model SF (monotone correctly rounded product; C01_order_binary64), CPython float = SF compared bit for bit each run; heapq trusted; trainer-written lists load into well-formed columns (C07_trained_column_wf); C01_omen_prob_file_sorted (writer loops regenerated: the Markov column is written through most_common()); trained rulesets checked file by file for order'),
+                note='binary64: PAlg laws proved for the model SF (monotone correctly rounded product; C01_order_binary64), CPython float = SF compared bit for bit each run; heapq trusted; trainer-written lists load into well-formed columns (C07_trained_column_wf); C01_omen_prob_file_sorted (writer loops regenerated: the Markov column is written through most_common()); trained rulesets checked file by file for order; C01_trained_order: no well-formedness hypothesis for grids whose columns were loaded from trainer-written files (TrainedCols)'),
     'C02': dict(design='§6 C02', technique='Lean 4 proof (order-independent adoption invariant by induction over pops) + trace validation incl. heap contents',
                 text='Exactly-once/none-skipped proved for every well-formed grid and every intermediate state via the adoption-system invariant; real heap compared with the model multiset after every pop.',
-                note='same trusted base as C01; C02_exactly_once_binary64 (doubles, no float hypothesis), C02_language (multiset of expansions); base structures compared with an independent tokenisation of grammar.txt'),
+                note='same trusted base as C01; C02_exactly_once_binary64 (doubles, no float hypothesis), C02_language (multiset of expansions); base structures compared with an independent tokenisation of grammar.txt; C02_trained_exactly_once (same, for trained grids)'),
     'C04': dict(design='§6 C04', technique='Lean 4 proof (recGuesses = product of groups, structural induction) + exact output diff of create_guesses',
                 text='The model of _recursive_guesses is proved equal to the product-of-groups specification with count = lines; limit fragments regenerated from source; real create_guesses output compared line by line.',
                 note='str.upper per character is a parameter; OMEN level content is C10'),
     'C07': dict(design='§6 C07', technique='Lean 4 proof (writer/loader round trip over code-point strings) + generated check_valid table + exhaustive Unicode table validation + real writer/3 loaders',
                 text='Round-trip theorems for the guesser and scorer loaders over every clean value; key lemma decided over the rejected-code-point table extracted from check_valid; line-boundary/whitespace tables validated against the interpreter over all code points each run. A sorted clean list file loads into a well-formed column (C07_trained_column_wf: trainer -> file -> guesser over binary64); a saved folder holds exactly the files the config lists, for every previous content (C07_folder_is_filename_list), and each config section takes its list from the counter the writer saves there (C07_config_sources, generated from config_file.py / save_pcfg_data.py).',
-                note='codec internals, float repr round trip, configparser/json are runtime'),
+                note='codec internals, float repr round trip, configparser/json are runtime; C07_last_listed_file_wins (Model/LoadMulti.lean, ld.multi stream), C07_trained_folder_loads'),
     'C08': dict(design='§6 C08', technique='Lean 4 proof (restore walk = roots of the sub-system of nodes ≤ saved probability) + trace validation from every cut point',
                 text='Resume emits exactly the nodes of probability ≤ the saved value, once each, in order; nothing lost, repeats only tied; proved for all grids / cut values / tie patterns; real restore compared with the model at cut points.',
-                note='C08_resume_binary64 for doubles (saved minimum 0.0 discharged); session file I/O (configparser float round-trip) trusted; multi-cycle histories reduce to the single saved float'),
+                note='C08_resume_binary64 for doubles (saved minimum 0.0 discharged); session file I/O (configparser float round-trip) trusted; multi-cycle histories reduce to the single saved float; C08_trained_resume (same, for trained grids)'),
     'C09': dict(design='§6 C09', technique='Lean 4 proof (limit = take n, across pre-terminal, mask loop, Markov level, session loop) + generated print-site table (decide) + subprocess stdout diff',
                 text='Static: every output call site regenerated from source, only print_guess may reach stdout (decide). Dynamic: limit theorems for all N; CLI stdout compared byte for byte.',
                 note='OS pipe behaviour; AST scan finds print/sys.stdout.write/traceback sites only; argparse print_usage/print_help and any sys.stdout call other than write/flush count as stdout sites; other modes run with every neighbouring option'),
@@ -37,13 +37,13 @@ CLAIMED = {
                 note='same trusted base as C01/C04/C09; C17_binary64 instance'),
     'C03': dict(design='§6 C03', technique='Lean 4 proof (case insertion + product-of-groups language: every training parse is a derivation; emitted mass = 1 over Rat) + real train→guess runs with an independent reparse oracle',
                 text='Theorems: the loader gives every alpha slot its capitalisation slot (all positions, any structure); the password of a training parse is in the product specification of its pre-terminal; every pre-terminal is emitted (C02); mass over Rat sums to 1. Real trainer + real guesser on generated lists: every supported training password appears, probability mass equals 1 up to rounding.',
-                note='which parse the trainer chooses is C05; float mass compared with tolerance; multiword detector threshold is runtime data; C03_trained_reproduced: the listing hypothesis is discharged from Model/Trainer.lean (every tally of a list password is >= 1, so count/total is not zero); prefixcount layout with leading-space passwords judged against the generated list'),
+                note='which parse the trainer chooses is C05; float mass compared with tolerance; multiword detector threshold is runtime data; C03_trained_reproduced: the listing hypothesis is discharged from Model/Trainer.lean (every tally of a list password is >= 1, so count/total is not zero); prefixcount layout with leading-space passwords judged against the generated list; C03_trained_end_to_end: Agree is a theorem (trained_agree); C03_view_columns_are_loaded / C03_view_bases_are_loaded / C03_trained_ruleset_loads: the view is what the loader models return on the trainer\'s files, folders and file names included'),
     'C05': dict(design='§6 C05', technique='Lean 4 proof (tiling invariant of every detector stage and of the whole pipeline for any Unicode database that preserves length under the detectors\' lower-casing) + correspondence of all detectors on generated passwords',
                 text='Theorems: for every input and every Unicode environment with length-preserving lower-casing the keyboard/e-mail/website/year/context/alpha/digit/other stages keep a tiling of the password, every section ends labelled, labels carry the section length, keyboard sections are single-layout walks of >= 4 keys. Detector tables (layouts, TLDs, year prefixes, context list) regenerated from the source each run; the real detectors compared section by section.',
                 note='CPython Unicode database enters as a parameter (validated per code point for the letters used; the alpha-position law of C05_other_sound over all code points each run); multiword trie contents are data. C05_other_sound: the detector loops run to their end with the pipeline fuel - other segments contain no letter and no digit; C05_len_indexed_counters: the length-indexed counters are tallies (model of _update_counter_len_indexed driven against the real method)'),
     'C13': dict(design='§6 C13, §11.3', technique='Lean 4 proof (the promise: non-zero score = probability of a pre-terminal of the guesser\'s grammar that emits the string, via coherence of the parser\'s lists with its sections + the C07 loader round trips + the C03 derivation lemma; e-mail/website ⇒ 0) + real scorer vs model (bit-exact) and vs real guesser enumeration',
                 text='C13_promise: for every password, Unicode environment with length-preserving lower-casing and one-to-one case mapping on the password (CaseInvAll), ruleset views loaded from the same files (Agree; shown for the loader models by C13_same_files) and any commutative probability monoid: score ≠ 0 ⇒ ∃ base structure and group indices with _find_prob = score and the password in productSpec. C13_coherent: the scorer\'s lists are the labelled sections\' texts. C13_email_web_zero. Where CaseInvAll fails the promise fails on the real code (recorded known finding).',
-                note='exact arithmetic in the theorem; over doubles the two products differ by rounding (harness tolerance 1e-12 relative); OMEN level scoring is C11; the scorer\'s own multi-word table is data (any table, universally quantified)'),
+                note='exact arithmetic in the theorem; over doubles the two products differ by rounding (harness tolerance 1e-12 relative); OMEN level scoring is C11; the scorer\'s own multi-word table is data (any table, universally quantified); C13_trained_promise: the promise for every candidate string against every trained ruleset, Agree discharged'),
     'C06': dict(design='§6 C06', technique='Lean 4 proof (calcProbs: permutation, count/total, stable sort, sum = 1 over Rat, Markov share) + bit-exact correspondence + file-by-file recomputation',
                 text='Theorems for every counter; real calculate_probabilities compared bit for bit; every list file of real trainings equals the independently recomputed relative-frequency list of the real parser counters; determinism across hash seeds.',
                 note='C06_sorted_binary64: the written doubles are non-increasing in file order (correctly rounded count/total is monotone in the count; model SF.ratio compared bit for bit with CPython int/int and float/float each run); float sums differ from 1 by rounding only; which items reach which counter is C05; re-training over an existing rule directory exercised; C06_cli_passes_coverage (trainer.py option glue regenerated); trainer.py run as a program with --coverage as typed'),
